@@ -4,8 +4,8 @@ line: C03 <cls> <initial bits> <op> <op> ...          (TAB separated; a history 
   operand X   = <bits> | - | @ (the object itself), optionally ~s (as '0b…' string) ~A (BitArray) ~S (BitStream)
                 ~l (list of ints); default a Bits object.  The model sees the bits only.
   op tokens (space separated inside a field):
-    append X | prepend X | insert X pos | overwrite X pos
-    delitem i | delslice a b c | setitem i V | setslice a b c V            V = i:<int> | b:X
+    append X | iadd X (+=) | prepend X | insert X pos | overwrite X pos
+    delitem i | delslice a b c | setitem i V | setslice a b c V            V = i:<int> | t:0/1 (False/True) | b:X
     replace Xold Xnew start end count ba | reverse s e | rol k s e | ror k s e
     set v P | invert P                                                    P = None | i:<int> | l:<ints> | r:a,b,c
     byteswap F s e rep                                                    F = None | i:<int> | l:<ints> | s:<fmt>
@@ -40,8 +40,18 @@ def _strip_kind(tok):
     return tok.split("~")[0]
 
 
+def _canon_op(tok: str) -> str:
+    """The operation as the model and the oracle see it: no operand presentation, bool = 0/1, `+=` = append."""
+    tok = re.sub(r"~[sASl]", "", tok)
+    tok = re.sub(r" t:([01])$", r" i:\1", tok)
+    if tok.startswith("iadd "):
+        tok = "append " + tok[5:]
+    return tok
+
+
 def model_line(line: str) -> str:
-    return re.sub(r"~[sASl]", "", line)
+    f = line.split(SEP)
+    return SEP.join(f[:3] + [_canon_op(t) for t in f[3:]])
 
 
 def _mkoperand(tok, a):
@@ -66,6 +76,8 @@ def _value(tok, a):
     tag, rest = tok.split(":", 1)
     if tag == "i":
         return int(rest), None, None
+    if tag == "t":
+        return rest == "1", None, None
     return _mkoperand(rest, a)
 
 
@@ -108,6 +120,9 @@ def _apply(a, t):
         return v
     if op == "append":
         return a.append(opnd(t[1])), chk
+    if op == "iadd":
+        r = a.__iadd__(opnd(t[1]))
+        return (None if r is a else ("not-self", r)), chk
     if op == "prepend":
         return a.prepend(opnd(t[1])), chk
     if op == "insert":
@@ -389,6 +404,7 @@ def ref_step(l, t):
 
 def _expected(prev_bits: str, tok: str) -> str:
     l = [int(c) for c in prev_bits]
+    tok = _canon_op(tok)
     try:
         ret, m = ref_step(l, tok.split(" "))
     except _Err as e:
@@ -425,7 +441,7 @@ def oracle(line, out, extra):
 # ------------------------------------------------------------------------------------------------ known-deviation regions
 def _dev_step(prev: str, tok: str):
     """Name of the known-deviation region the step lies in (same names as the Lean predicates), or None."""
-    t, n = tok.split(" "), len(prev)
+    t, n = _canon_op(tok).split(" "), len(prev)
     op = t[0]
     opbits = lambda x: prev if _strip_kind(x) == "@" else unwire(_strip_kind(x))
 
@@ -577,6 +593,8 @@ def _rand_op(rng, cur):
     if n > 160 and rng.random() < 0.7:
         kind = rng.choice(["delslice", "clear", "ishl", "reverse", "set", "invert", "rol"])
     if kind in ("append", "prepend"):
+        if kind == "append" and rng.random() < 0.4:
+            kind = "iadd"
         return f"{kind} {_rand_operand(rng, cur)}"
     if kind in ("insert", "overwrite"):
         return f"{kind} {_rand_operand(rng, cur)} {_pos_class(rng, n)}"
@@ -590,8 +608,10 @@ def _rand_op(rng, cur):
             return f"delslice {_sv(a)} {_sv(b)} {_sv(c)}"
         k = len(range(*slice(a, b, c).indices(n))) if c != 0 else 0
         r = rng.random()
-        if r < 0.35:
+        if r < 0.30:
             v = "i:" + str(rng.choice(_int_values(k)))
+        elif r < 0.35:
+            v = "t:" + rng.choice("01")
         elif r < 0.45:
             v = "i:" + str(rng.randint(-(1 << max(k, 1)), 1 << max(k, 1)))
         elif r < 0.75:
@@ -601,8 +621,10 @@ def _rand_op(rng, cur):
         return f"setslice {_sv(a)} {_sv(b)} {_sv(c)} {v}"
     if kind == "setitem":
         r = rng.random()
-        if r < 0.5:
+        if r < 0.4:
             v = "i:" + str(rng.choice([0, 1, -1, 2, -2]))
+        elif r < 0.5:
+            v = "t:" + rng.choice("01")
         else:
             v = "b:" + _rand_operand(rng, cur)
         return f"setitem {_pos_class(rng, n)} {v}"
@@ -715,7 +737,7 @@ def gen(rng, tier):
                     yield _line(cls, cur, [f"overwrite {x} {p}"])
             for p in poss:
                 yield _line(cls, cur, [f"delitem {p}"])
-                for v in ["i:0", "i:1", "i:-1", "i:2", "b:-", "b:1", "b:011~s", "b:@"]:
+                for v in ["i:0", "i:1", "i:-1", "i:2", "t:0", "t:1", "b:-", "b:1", "b:011~s", "b:@"]:
                     yield _line(cls, cur, [f"setitem {p} {v}"])
             bounds = [None] + list(range(-(n + 1), n + 2))
             ks = sorted({0, 1, 2, max(0, n - 1), n, n + 1, 2 * n + 1, 3 * n + 2})
@@ -832,11 +854,12 @@ def gen(rng, tier):
                 yield _line(cls, cur, [f"{o} {_kinded(rng, rand_bits(rng, n - 1))}"])
         for x in ("-", "1", "@", wire(rand_bits(rng, 9)) + "~s"):
             yield _line(cls, cur, [f"append {x}"])
+            yield _line(cls, cur, [f"iadd {x}"])
             yield _line(cls, cur, [f"prepend {x}"])
         yield _line(cls, cur, ["clear"])
         yield _line(cls, cur, ["clear", "append 1", "clear", "clear"])
     # ---- 6. histories
-    nh = 60000 if big else 4500
+    nh = 150000 if big else 4500
     for i in range(nh):
         r = rng.random()
         if r < 0.85:
@@ -849,7 +872,7 @@ def gen(rng, tier):
         nops = rng.randint(1, 12) if n <= 65 else rng.randint(1, 5)
         yield _history(rng, pick_cls(), init, nops)
     # ---- 7. single random operations with the full argument classes (deviation regions included)
-    for i in range(80000 if big else 6000):
+    for i in range(200000 if big else 6000):
         n = rng.choice([0, 1, 2, 3, 5, 8, 9, 13, 16, 17, 24, 31, 32, 33, 40])
         init = rand_bits(rng, n)
         yield _line(pick_cls(), init, [_rand_op(rng, init)])
